@@ -164,7 +164,11 @@ func (c *Chain) SpecMap() map[string]any {
 
 // ChainProviders serves Genesis, Spec, Domain, FarFutureEpoch and
 // ForkSchedule from the chain parameters, with no latency and no faults.
-type ChainProviders struct{ C *Chain }
+type ChainProviders struct {
+	C *Chain
+	// OmitSpec: keys left out of the specification the node serves.
+	OmitSpec []string
+}
 
 var (
 	_ eth2client.GenesisProvider = (*ChainProviders)(nil)
@@ -182,7 +186,11 @@ func (p *ChainProviders) Genesis(_ context.Context, _ *api.GenesisOpts) (*api.Re
 }
 
 func (p *ChainProviders) Spec(_ context.Context, _ *api.SpecOpts) (*api.Response[map[string]any], error) {
-	return &api.Response[map[string]any]{Data: p.C.SpecMap(), Metadata: map[string]any{}}, nil
+	m := p.C.SpecMap()
+	for _, k := range p.OmitSpec {
+		delete(m, k) // a node that does not know the key (older release, other fork schedule)
+	}
+	return &api.Response[map[string]any]{Data: m, Metadata: map[string]any{}}, nil
 }
 
 func (p *ChainProviders) Domain(_ context.Context, domainType phase0.DomainType, epoch phase0.Epoch) (phase0.Domain, error) {
